@@ -9,6 +9,7 @@ Property C08 on the REAL lexer model: `Model.SM`'s lexer run on the table genera
 import LolHtml.Thm.C08_Escape
 import LolHtml.Thm.C16_Attrs
 import LolHtml.Lemmas.EscRealTag
+import LolHtml.Lemmas.EscRealText
 
 namespace LolHtml.Thm.C08Real
 open LolHtml LolHtml.Model LolHtml.Model.Esc LolHtml.Spec.Esc LolHtml.Spec.Attrs
@@ -164,5 +165,43 @@ theorem C08_attr_real (cfg : TagCfg) (pre tn n v rest : Bytes) (m : M (List Lexe
   · rw [hpos, hstop]
   · obtain ⟨l, h1, h2, h3⟩ := hl
     exact ⟨l, h1, by rw [h2, hstop], h3⟩
+
+/-- **C08_text_real.** For every string `s`, with `out = escapeBodyText s` non-empty, every prefix and
+every `rest` that is empty or starts with `<`: the real lexer in the data state at the start of `out`
+(at a lexeme boundary), on `pre ++ out ++ rest`, behaves — for every amount of fuel ≥ 1, i.e. from its
+very next state-function call on — exactly like the machine that has ALREADY handed ONE text lexeme
+covering exactly the bytes of `out` to the sink and stands in the clean data state (no pending text) at
+the first byte of `rest`. Inserted text is one text lexeme; it opens no tag; what follows is lexed as
+if the text were not there. (For `s = []` nothing is written and there is nothing to prove.) -/
+theorem C08_text_real (cfg : TagCfg) (pre s out rest : Bytes) (m : M (List Lexeme)) (l : LexRegs)
+    (h : escapeBodyText s = some out) (hne : out ≠ []) (hrest : rest = [] ∨ ∃ r, rest = 60 :: r)
+    (hstate : m.c.state = Gen.Syntax.table.dataState) (hpos : m.c.nextPos = pre.length)
+    (hl : m.r = .lexer l) (hls : l.lexemeStart = pre.length) (fuel : Nat) :
+    let inp := pre ++ out ++ rest
+    let stop := pre.length + out.length
+    let m0 : M (List Lexeme) :=
+      ⟨{ m.c with nextPos := stop }, .lexer { l with lexemeStart := stop },
+       { m.x with sink := m.x.sink ++ [.nonTag ⟨m.x.prevConsumed, ⟨pre.length, stop⟩, some (.text m.c.lastTextType)⟩] }⟩
+    runLoop ⟨Gen.Syntax.table, cfg, recOps⟩ inp (fuel + 1) m
+      = runLoop ⟨Gen.Syntax.table, cfg, recOps⟩ inp (fuel + 1) m0 := by
+  intro inp stop m0
+  have hlt : (60 : UInt8) ∉ out := (Thm.C08.C08_body_no_markup s out h).1
+  obtain ⟨c, r, x⟩ := m
+  obtain ⟨np, il, st, en, ca, lsh, cq, ltt⟩ := c
+  simp only at hstate hpos hl
+  rw [Model.TagStates.data_of_ok Thm.C16.tagStates_gen] at hstate
+  subst hstate hpos hl
+  have key : stateFn ⟨Gen.Syntax.table, cfg, recOps⟩ inp ⟨⟨pre.length, il, 2, en, ca, lsh, cq, ltt⟩, .lexer l, x⟩
+      = stateFn ⟨Gen.Syntax.table, cfg, recOps⟩ inp m0 := by
+    rcases hrest with hr | ⟨r, hr⟩
+    · have := LolHtml.Lemmas.EscRealText.step2_text_end (cfg := cfg) Thm.C16.tagStates_gen (inp := inp) (p := pre.length)
+        (il := il) (en := en) (ca := ca) (lsh := lsh) (cq := cq) (ltt := ltt) (x := x) (l := l) pre out
+        (by simp [inp, hr]) rfl hlt hne hls
+      exact this
+    · have := LolHtml.Lemmas.EscRealText.step2_text_lt (cfg := cfg) Thm.C16.tagStates_gen (inp := inp) (p := pre.length)
+        (il := il) (en := en) (ca := ca) (lsh := lsh) (cq := cq) (ltt := ltt) (x := x) (l := l) pre out r
+        (by simp [inp, hr]) rfl hlt hne hls
+      exact this
+  simp only [runLoop, key]
 
 end LolHtml.Thm.C08Real
